@@ -358,6 +358,15 @@ def gen(rng, tier):
     cs += byte_mutations(rng, tier)
     cs += randoms(rng, tier)
     cs += exhaustive_small(tier)
+    # request targets that do not start with '/' (absolute-form, authority-form, junk) with a multi-byte UTF-8 character at
+    # every offset 0..15: classified (MalformedPath or accepted), never a panic
+    for off in range(0, 16):
+        for ch in (b"\xc3\xa9", b"\xe2\x82\xac", b"\xf0\x9f\x98\x80"):
+            for pre in (b"a", b"h"):
+                tgt = pre * off + ch + b"zzz"
+                cs.append(try_case(8192, 0, b"GET " + tgt + b" HTTP/1.1\r\n\r\nR", ["non-ascii-target"]))
+        cs.append(try_case(8192, 0, b"GET http://" + b"e" * off + b"\xc3\xa9.example/p HTTP/1.1\r\n\r\n", ["non-ascii-target"]))
+        cs.append(try_case(8192, 0, b"GET HTTP:/" + b"/" * (off % 3) + b"\xc3\xa9 HTTP/1.1\r\n\r\n", ["non-ascii-target"]))
     # the connection task as a whole (handle_http_conn over loop-back): every documented outcome is answered with its
     # status, with no logger installed (n) and with a stopped global logger installed (s)
     for lg in ("n", "s"):
